@@ -66,7 +66,8 @@ def collect(names):
         patch = os.path.join(sdir, d, "patch.diff")
         if os.path.exists(meta) and os.path.exists(patch):
             m = json.load(open(meta))
-            items.append(("seeded/" + d, patch, m.get("detected_by_quick") or [m["property"]]))
+            # a change recorded as not detected (see its meta.json note and DESIGN.md) is still applied and run, but nothing is expected of it
+            items.append(("seeded/" + d, patch, [] if m.get("not_detected") else (m.get("detected_by_quick") or [m["property"]])))
     if names:
         items = [i for i in items if any(n in i[0] for n in names)]
     return items
